@@ -312,7 +312,7 @@ class Squid:
             probs.append(("assert:" + where[:80].replace(" ", "_"), m.group(0)))
         m = re.search(r"FATAL: (?!Received Segment Violation)([^\n]*)", logtxt)
         # "kidN registration timed out" is Squid's own start-up watchdog firing on a CPU-starved machine: environment, not a verdict
-        if m and "dying" not in m.group(1) and "registration timed out" not in m.group(1):
+        if m and "dying" not in m.group(1) and "registration timed out" not in m.group(1) and not m.group(1).startswith("assertion failed"):
             probs.append(("fatal:" + m.group(1)[:60].replace(" ", "_"), m.group(0)))
         if "Segment Violation" in logtxt or "Bus Error" in logtxt:
             probs.append(("crash:segv", "segment violation in cache.log"))
